@@ -19,7 +19,7 @@ class Knobs:
         self.n_ops = 26
         self.w = {'event': 3, 'binary': 1, 'ack': 2, 'emit': 2, 'emit_cb': 2, 'send': 0.5, 'call': 1.5,
                   'server_disc': 0.8, 'disconnect': 0.45, 'loss': 0.45, 'server_close': 0.3, 'reconnect': 0.25,
-                  'bad_ns': 0.7, 'late': 1.0, 'junk': 0.25, 'second_disc': 0.08, 'late_refuse': 0.0, 'nested': 0.0}
+                  'bad_ns': 0.7, 'late': 1.0, 'junk': 0.25, 'second_disc': 0.08, 'late_refuse': 0.0, 'nested': 0.0, 'ack_nested': 0.0}
         self.p_wait = 0.75
         self.p_eio_fail = 0.07
         self.p_refuse = 0.10          # per requested namespace, inside the window
@@ -318,6 +318,31 @@ def gen_ops(rng, k, sh, kind):
             out = [('msg_nested', eio_decode(frame(2, ns, pid, [ev, rng.choice([1, 'a', [2]])])), eio_decode(inner))]
             sh.note('nested-in-text-event')
         return out + follow
+    if kind == 'ack_nested':
+        # an ACK / BINARY_ACK whose callback re-delivers the same frame once before it returns (a duplicate ACK
+        # handled while the first invocation is still running)
+        if not (sh.live and sh.acc) or sh.binary_open:
+            return None
+        with_ids = sorted(n for n, l in sh.ids.items() if l)
+        r = rng.random()
+        if with_ids and r < 0.7:
+            ns = rng.choice(with_ids)
+            pid = rng.choice(sh.ids[ns])
+            sh.ids[ns].remove(pid)
+            sh.note('ack-nested-correct')
+        elif r < 0.85 and sh.next_id:
+            ns = rng.choice(sorted(sh.next_id))
+            pid = rng.randrange(1, sh.next_id[ns] + 1)
+            if pid in sh.ids.get(ns, []):
+                sh.ids[ns].remove(pid)
+            sh.note('ack-nested-repeated-or-next')
+        else:
+            ns, pid = rng.choice(sorted(sh.acc)), rng.choice([0, 9, 77])
+            sh.note('ack-nested-unknown')
+        if rng.random() < 0.35:
+            sh.note('ack-nested-binary')
+            return [msg(frame(6, ns, pid, [{'_placeholder': True, 'num': 0}, 'tail'], natt=1)), ('ack_nested', b'\x09\x08')]
+        return [('ack_nested', eio_decode(frame(3, ns, pid, rng.choice([[], ['ok'], [1, {'a': 2}], [[1]]]))))]
     if kind == 'binary':
         ns = pick_ns(rng, sh)
         n = rng.choice([1, 1, 2])
